@@ -8,6 +8,7 @@ from props.c20 import seg_table, FN_PARAMS
 
 ID = "C17"
 HEAP_SUMMARY = True      # end every program with the reference-level observation (BB.Model.Heap vs id() walk)
+UNIVERSAL_EVERY = 8      # every n-th case is a feature-rich random program (props/universal.py)
 LEAN_MODULE = "BB.Properties.C17"
 QUICK_N = 300
 THOROUGH_N = 3000
